@@ -786,6 +786,27 @@ class G:
             for k, f in enumerate(fields):
                 if shape == "named":
                     f.name = NAMES[k]
+        if self.r2.random() < self.p.get("child_shape_skew", 0.0):
+            # a deliberate construction (second random stream): a From conversion from a counterpart of one shape whose
+            # nested struct has the other shape, and a flattened member whose instruction has an expression and no name —
+            # `~` has to resolve inside the nested struct, by the shape #[child_parents] gives *it*
+            r2 = self.r2
+            kids = [f for f in fields if any(a.name == "child" for a in f.attrs)]
+            cps = [a for a in attrs if a.name == "child_parents"]
+            if kids and cps and shape == "named":
+                c = cparts[0]
+                top, nested = (" as ()", "{}") if r2.random() < 0.5 else ("", "()")
+                attrs[:] = [a for a in attrs if not (a.tag and a.tag[0] == "trait")]
+                attrs.insert(0, Instr(r2.choice(["from", "from_owned", "from_ref", "map", "map_owned", "try_from"]), c + top, tag=("trait", c)))
+                if attrs[0].name == "try_from":
+                    attrs[0].args += ", String"
+                for a in cps:
+                    a.args = re.sub(r" as (\{\}|\(\)|Unit)", "", a.args)
+                    a.args = re.sub(r"(: [A-Za-z0-9_:<>]+)", r"\1 as " + nested, a.args)
+                f = r2.choice(kids)
+                f.attrs = [a for a in f.attrs if a.name == "child"][:1]
+                f.attrs[0].args = f.attrs[0].args.split("| ")[-1]
+                f.attrs.append(Instr(r2.choice(["from", "map", "from_owned", "map_owned"]), r2.choice(["~.to_string()", "~ + 1", "~.clone()", "Some(~)"]), tag=("mmap", None)))
         it = Item("struct", name, shape, self.generics(), attrs, fields)
         it.meta["cparts"] = cparts
         return it
@@ -904,7 +925,7 @@ PROFILES = {
     "enum-members": {"max_variants": 3, "payload_heavy": 0.85, "member_instr": 0.55, "member_try": 0.4, "try_pair": 0.35, "fallible": 0.6, "dedicated": 0.3,
                      "multi_cpart": 0.3, "type_hint": 0.25, "multi_instr": 0.5, "ghost_field": 0.1, "variant_map": 0.2, "type_hint_pair": 0.5},
     "enum-prim": {"enum_prim": 1.0, "max_variants": 5, "default_case": 0.6, "fallible": 0.4, "lit": 0.6, "pat": 0.7, "prim_ghost": 0.12, "prim_multi": 0.3},
-    "tree": {"max_fields": 6, "max_depth": 3, "member_instr": 0.3, "fallible": 0.3, "multi_cpart": 0.3, "hints": 0.2, "ghosts": 0.2, "dedicated": 0.25, "mixed_levels": 0.3, "child_ghosts_ded": 0.35, "ghost_only_child": 0.2, "generic_cpart": 0.15, "child_pair": 0.25},
+    "tree": {"max_fields": 6, "max_depth": 3, "member_instr": 0.3, "fallible": 0.3, "multi_cpart": 0.3, "hints": 0.2, "ghosts": 0.2, "dedicated": 0.25, "mixed_levels": 0.3, "child_ghosts_ded": 0.35, "ghost_only_child": 0.2, "generic_cpart": 0.15, "child_pair": 0.25, "child_shape_skew": 0.06},
     "trait-params": {"max_fields": 3, "vars": 0.5, "attr_params": 0.4, "update": 0.3, "quick_return": 0.2, "default_case": 0.4, "trait_repeat": 0.3,
                      "multi_instr": 0.7, "fallible": 0.4, "member_instr": 0.3},
     "repeat": {"max_fields": 6, "min_fields": 2, "member_repeat": 0.35, "member_instr": 0.5, "ghost_field": 0.15, "max_variants": 4, "variant_map": 0.3,
